@@ -7,6 +7,10 @@ props = [json.loads(l) for l in open(os.path.join(V, 'properties.jsonl'))]
 TRUST = "Trusted: go/types and go/ssa (x/tools v0.29.0) as a faithful view of /repo's working tree; anchor names (functions, fields) listed in the rule files; std library contracts; reviewed tables rules/exceptions.json. Loops are abstracted to 0/1 iterations in decision-list rules."
 
 CLAIMS = {
+ "C08": dict(
+   technique="loop transition-function extraction (one iteration of RelevantElements.Process as a decision list over boolean loop state) + call ordering (must-pass-through) + layering (who-may-call) + loop/promotion rules",
+   text="Decides that the retention automaton for non-text elements is exactly: content element opens a run, dropped text closes it, any other element is retained iff the run is open; that the filters run in the fixed order after text classification; that the lead-image promotion is a single SetIsContent(true) outside loops over candidates that are dropped images/figures before the last retained text; and that nobody else writes the content flag. This is the structural form of 'retained iff the nearest preceding text block is retained, plus at most one lead image'. Not decided: scorer arithmetic and the classifier's choice of text blocks.",
+   design="4/C08"),
  "C14": dict(
    technique="static decision-list extraction + guard-cut/ordering rules on SSA (accessor order, OpenGraph gate, first-non-empty getters, opt-out dominance, field/getter agreement)",
    text="Decides the combinator skeleton of the metadata precedence for all inputs: accessor list order [OpenGraph only if complete, schema.org, IE], each getter returns the first non-empty answer of the same-named accessor method, opt-out yields the zero record, and each record field is filled from the same-named source. Not decided: what each of the three parsers extracts from a document.",
